@@ -1,6 +1,6 @@
 (* C13 — file, pipe and run modes show the same thing; run mode is transparent.  PARTIAL: the
    part a model can carry; pipes, threads, buffering and exit codes are explored, not proved. *)
-From WD Require Import Base Runner RunnerProofs Session SessionProofs.
+From WD Require Import Base Runner RunnerProofs Session SessionProofs Utf8 Utf8ProofsA Utf8ProofsB.
 Open Scope N_scope.
 
 Theorem C13_spawn_transparent : forall args lib e,
@@ -28,6 +28,24 @@ Proof. exact run_app. Qed.
 
 Theorem C13_exit_status : forall st eof, run_exit_status st eof = st.
 Proof. exact exit_status_is_childs. Qed.
+
+(* BYTES: the pipe is read as UTF-8 text with errors='replace' through an incremental decoder
+   (Model/Utf8.v: CPython's bytes.decode('utf-8','replace') and its incremental decoder, compared with
+   CPython on every run by harness/utf8_corr.py).  However the program's bytes are split into reads -
+   also inside a multi-byte character, also for invalid bytes - the same text and the same lines result *)
+Theorem C13_decode_chunks_concat : forall chunks, decode_chunks chunks = decode_utf8 (List.concat chunks).
+Proof. exact decode_chunks_concat. Qed.
+Print Assumptions C13_decode_chunks_concat.
+
+Theorem C13_byte_chunking_irrelevant : forall c1 c2, List.concat c1 = List.concat c2 ->
+  lines_of (decode_chunks c1) = lines_of (decode_chunks c2).
+Proof. exact lines_chunking_irrelevant. Qed.
+Print Assumptions C13_byte_chunking_irrelevant.
+
+(* text written by the program arrives as written *)
+Theorem C13_decode_encode : forall cps, Forall (fun c => is_scalar c = true) cps -> decode_utf8 (encode_utf8 cps) = cps.
+Proof. exact decode_encode. Qed.
+Print Assumptions C13_decode_encode.
 
 Example C13_ex :
   lines_of_chunks [s2l "[1.0] a@1"; s2l ".b()"; [10]; s2l "tail"] = [s2l "[1.0] a@1.b()" ++ [10]; s2l "tail"] /\
